@@ -42,7 +42,7 @@ POOL = ["a", "b", "c", "d", "e", "f", "g", "h"]
 ABSENT = ["zz", "not_there", "a2"]
 LONG_NAMES = ["payload", "meta"]  # every object of the graph also carries these two attributes
 TYPE_NAMES = ["ndarray", "Tensor", "Parameter", "int", "float", "str", "bool", "list", "tuple", "dict", "set", "Path", "float64", "Leaf", "NoneType"]
-N_FAMILIES = {"quick": 12, "thorough": 12}
+N_FAMILIES = {"quick": 12, "thorough": 10}
 
 
 PTYCHO_ITEMS = ["_snapshots", "_obj_fov_mask", "_rng", "_iter_losses", "_propagators", "type:Tensor", "type:ndarray", "nested:_initial_probe"]
